@@ -31,66 +31,7 @@
 #define W_GE2(l) do { } while (0)
 #endif
 
-/* ---- pools: typed allocation by pool identity ---- */
-struct DBusMemPool { int n; };
-static struct DBusMemPool vf_sp, vf_op;
-void *_dbus_mem_pool_alloc (DBusMemPool *p)
-{
-  void *m;
-  if (vf_alloc_fails ()) return 0;
-  if (p == &vf_op) m = calloc (1, sizeof (BusOwner));
-  else if (p == &vf_sp) m = calloc (1, sizeof (BusService));
-  else m = calloc (1, sizeof (DBusList));
-  VF_ASSUME (m != 0);
-  p->n++; vf_live_blocks++;
-  return m;
-}
-dbus_bool_t _dbus_mem_pool_dealloc (DBusMemPool *p, void *e)
-{ if (__CPROVER_DYNAMIC_OBJECT (e)) { free (e); vf_live_blocks--; } p->n--; return p->n == 0; }
-DBusMemPool *_dbus_mem_pool_new (int element_size, dbus_bool_t zero_elements) { static struct DBusMemPool lp; return &lp; }
-void _dbus_mem_pool_free (DBusMemPool *p) { }
-dbus_bool_t _dbus_lock (DBusGlobalLock l) { return 1; }
-void _dbus_unlock (DBusGlobalLock l) { }
-
-/* ---- bus environment ---- */
-static int cfg_limit, policy_allows_own;
-int bus_context_get_max_services_per_connection (BusContext *c) { return cfg_limit; }
-BusActivation *bus_context_get_activation (BusContext *c) { return 0; }
-const char *bus_context_get_type (BusContext *c) { return "session"; }
-void bus_context_log (BusContext *c, DBusSystemLogSeverity s, const char *m, ...) { }
-dbus_bool_t bus_activation_send_pending_auto_activation_messages (BusActivation *a, BusService *s, BusTransaction *t) { return !vf_alloc_fails (); }
-dbus_bool_t bus_activation_service_created (BusActivation *a, const char *n, BusTransaction *t, DBusError *e) { return 1; }
-dbus_bool_t bus_apparmor_allows_acquire_service (DBusConnection *c, const char *t, const char *n, DBusError *e) { return 1; }
-dbus_bool_t bus_selinux_allows_acquire_service (DBusConnection *c, BusSELinuxID *s, const char *n, DBusError *e) { return 1; }
-BusSELinuxID *bus_selinux_id_table_lookup (DBusHashTable *t, const DBusString *s) { return 0; }
-dbus_bool_t bus_client_policy_check_can_own (BusClientPolicy *p, const DBusString *s) { return policy_allows_own; }
-static int vf_dummy_policy;
-BusClientPolicy *bus_connection_get_policy (DBusConnection *c) { return (BusClientPolicy *) &vf_dummy_policy; }
-dbus_bool_t bus_connection_is_active (DBusConnection *c) { return 1; }
-const char *bus_connection_get_name (DBusConnection *c) { return vf_conn_name[c->id]; }
-int bus_connection_get_n_services_owned (DBusConnection *c) { return c->n_owned; }
-dbus_bool_t bus_connection_add_owned_service (DBusConnection *c, BusService *s) { if (vf_alloc_fails ()) return FALSE; c->n_owned++; return 1; }
-void bus_connection_add_owned_service_link (DBusConnection *c, DBusList *l) { c->n_owned++; _dbus_list_free_link (l); }
-void bus_connection_remove_owned_service (DBusConnection *c, BusService *s) { c->n_owned--; }
-DBusConnection *dbus_connection_ref (DBusConnection *c) { c->refs++; return c; }
-void dbus_connection_unref (DBusConnection *c) { c->refs--; }
-dbus_bool_t bus_driver_send_service_acquired (DBusConnection *c, const char *n, BusTransaction *t, DBusError *e) { return vf_log_ev (1, c->id, 0, e); }
-dbus_bool_t bus_driver_send_service_lost (DBusConnection *c, const char *n, BusTransaction *t, DBusError *e) { return vf_log_ev (2, c->id, 0, e); }
-dbus_bool_t bus_driver_send_service_owner_changed (const char *n, const char *o, const char *nw, BusTransaction *t, DBusError *e)
-{ return vf_log_ev (3, vf_conn_idx_by_name (o), vf_conn_idx_by_name (nw), e); }
-
-static void vf_hook_cancel (struct vf_hook *h)
-{
-  if (h->f == cancel_ownership) cancel_ownership (h->d);
-  else if (h->f == restore_ownership) restore_ownership (h->d);
-  else VF_ASSERT (0, "unknown cancel hook");
-}
-static void vf_hook_free (struct vf_hook *h)
-{
-  if (h->fr == free_ownership_cancel_data) free_ownership_cancel_data (h->d);
-  else if (h->fr == free_ownership_restore_data) free_ownership_restore_data (h->d);
-  else VF_ASSERT (h->fr == 0, "unknown hook free function");
-}
+#include "services_env.h"
 /* ---- pre-state objects ---- */
 static BusRegistry reg; static struct DBusHashTable ht;
 static BusService *svcp; static char *svc_name;
